@@ -275,8 +275,19 @@ def main(tier, seed, replay=None):
         run.count("angle-triples", ngoal_a)
         # torsions: one magnitude goal per observed harmonic case (sampled)
         harm = [(kq, v) for kq, v in tors_obs.items() if v[0] == 0]
-        for (a1, a2, a3, a4), (code, p) in rng.sample(harm, min(len(harm), 150 if tier == "quick" else 2000)):
-            m = rng.choice([1, 2, 3, 9])
+        # always included: sp2 / aromatic central bonds whose guessed bond order is not 1, with several torsions about the bond
+        fixed = []
+        for q4 in [("H_", "C_R", "C_R", "H_"), ("C_R", "C_R", "C_R", "C_R"), ("H_", "C_2", "C_2", "H_"), ("C_3", "N_R", "N_R", "H_"), ("H_", "C_2", "C_R", "H_"),
+                   ("O_3", "C_R", "N_R", "H_"), ("H_", "O_R", "O_R", "H_"), ("C_3", "N_2", "N_2", "C_3")]:
+            with o, e:
+                try:
+                    p0 = ru.dihedral_params(*q4)
+                except Exception:      # noqa
+                    p0 = None
+            if p0 is not None:
+                fixed += [(q4, (0, p0), mm) for mm in (2, 4, 9)]
+        sampled = [(kq, v, rng.choice([1, 2, 3, 9])) for kq, v in rng.sample(harm, min(len(harm), 150 if tier == "quick" else 2000))]
+        for (a1, a2, a3, a4), (code, p), m in fixed + sampled:
             with o, e:
                 pm = ru.dihedral_params(a1, a2, a3, a4, num_dihedrals_about_bond=m)
                 g = ru.guess_bond_order(a2, a3)
